@@ -227,7 +227,13 @@ def run(ctx, res):
                 else:
                     res.fail("C20 ==: components of different kinds compare equal", [key, what])
             if expect is None and not ser_same and ab and ba:
-                res.fail("C20 ==: trees that serialise differently after a single perturbation compare equal", [key, what])
+                # the containment test can be satisfied in both directions although the multisets differ ([x, y, y] vs
+                # [x, x, y]; with the kind ignored also [A{p}, B{}] vs [A{}... ]): same root as C20-F1 / C20-F3, possible only
+                # where some component has two or more subcomponents; the model reproduces it (correspondence below)
+                if "C20-F1" in known and any(len(c.subcomponents) >= 2 for c in pre):
+                    res.known("C20-F1", {"what": what, "equal both ways although the multisets of subcomponents differ": True}, known["C20-F1"]["summary"])
+                else:
+                    res.fail("C20 ==: trees that serialise differently after a single perturbation compare equal", [key, what])
         # non-components
         for other in (None, 5, "x", {}, []):
             r = safe_eq(t, other)
